@@ -27,6 +27,6 @@ def keep(c):
 def finding_key(c, r):
     return None
 
-LEVEL_TEXT = "placeholder"
-LEVEL_NOTE = "placeholder"
+LEVEL_TEXT = 'Theorem c04_filters (Props/C04.v): every result of SearchUniversal - lexical, NLP or typo fallback - is an entry that satisfies the platform rule as the property words it (Spec/Filters.v) and, in pipeline-only searches, is a pipeline command; for every database, query and option record. Model compared bit for bit with the engine on every case; the same rule is evaluated in Coq on the real answers of 8 runs per case (incl. cached).'
+LEVEL_NOTE = 'Trusted: Coq kernel; platform tags assumed ASCII (EqualFold modelled by ASCII folding); the alias rules (checkPlatformVariant) and tool list are transcribed / read from the built code and exercised on every case; oracles as for C01.'
 TECHNIQUE = "Coq proof over the engine model + differential correspondence (vm_compute, bit-exact scores)"
